@@ -483,6 +483,8 @@ for _id in ("C13", "C15", "C16", "C17", "C20"):
 _SEARCH_TOL = (("mofun.mofun", None), ("mofun.helpers", None))
 for _id in ("C01", "C02", "C03", "C04", "C05", "C08"):
     PROPERTIES[_id]["rules"].append((G2.G38_tolerance_dimension, "%s every deviation compared with atol is a length, not a squared length" % _id, {"scope": _SEARCH_TOL}))
+for _id in ("C13", "C14"):
+    PROPERTIES[_id]["rules"].append((G2.E1p_section_protocol, "%s section scanner of the LAMMPS reader: a section ends at a blank line; section keywords are recognised without their trailing comment" % _id))
 for _id in ("C09", "C10"):
     PROPERTIES[_id]["rules"].append((G2.G36_refusal_before_mutation, "%s a deletion request that numpy refuses (index out of range) is refused before any term has been dropped or renumbered" % _id))
 for _id in sorted(PROPERTIES):
